@@ -554,7 +554,13 @@ long sim_read(int fd, void *buf, unsigned long n)
 		case 3: if (K.knobs.read_n > 0 && K.knobs.read_n < k) k = K.knobs.read_n; break;
 		}
 		if (f && f->effect == "short" && f->arg > 0 && f->arg < k) { k = f->arg; K.fired["fread:short"]++; }
-		if (k < (long) n && k < avail) K.probe("short_read_served");
+		if (k < (long) n && k < avail) {
+			K.probe("short_read_served");
+			// a transfer the simulator itself cut short makes progress and is bounded by the file size:
+			// it does not count against the editor's syscall budgets (bounded liveness)
+			if (K.step_calls > 0) K.step_calls--;
+			if (K.run_calls > 0) K.run_calls--;
+		}
 		memcpy(buf, data.data() + d->off, (size_t) k);
 		d->off += k;
 		K.ev("read", k, 0);
@@ -653,7 +659,11 @@ long sim_write(int fd, const void *buf, unsigned long n)
 				if (grow > room) { k -= grow - room; K.probe("disk_full_short"); }
 			}
 		}
-		if (k < (long) n) K.probe("short_write_served");
+		if (k < (long) n) {
+			K.probe("short_write_served");
+			if (k > 0 && K.step_calls > 0) K.step_calls--;	// see the short read above
+			if (k > 0 && K.run_calls > 0) K.run_calls--;
+		}
 		if ((long) in.data.size() < d->off) in.data.resize((size_t) d->off, '\0');
 		long over = d->off + k - (long) in.data.size();
 		if (over > 0) { in.data.resize((size_t) (d->off + k)); K.disk_used += over; }
